@@ -214,8 +214,9 @@ class PhylogenCluster:
         mnorm = self._gene_matrices_raw.copy()
         if self._normdist is not None:
             mmax = np.amax(mnorm, axis=(0, 1))
-            if mmax.size > 0 and not np.isclose(mmax, 0):
-                mnorm *= self._normdist / mmax
+            # Each pair gene column is scaled on its own; all-zero ones stay
+            nonzero = ~np.isclose(mmax, 0)
+            mnorm[:, :, nonzero] *= self._normdist / mmax[nonzero]
         self._gene_matrices_norm = mnorm * g_mats_weights
 
         # Distmat: start with vectors, add distances
